@@ -23,8 +23,8 @@
 (* harness' order; the restored / alternative object is forgotten once its  *)
 (* Eq step is over; a history stops after MaxViol clauses have fired.        *)
 (* Measured: quick (MaxC = 4, d = h = 0 starts, 2 formats, MaxViol = 1)      *)
-(* 104 220 distinct states; thorough (every start, 3 formats, MaxViol = 2)   *)
-(* 1 607 944 distinct states (MaxC = 4), 2 276 800 (MaxC = 5).               *)
+(* 205 652 distinct states; thorough (MaxC = 5, d = h = 0 starts -- the      *)
+(* model is symmetric in d and h --, 3 formats, MaxViol = 2) 1 176 632.      *)
 (*                                                                          *)
 (* Abstract object state  s = [d, c, h, a]:                                    *)
 (*   d  a discrete parameter  (what class labels / cluster ids depend on)   *)
